@@ -62,9 +62,12 @@ PathDiag(x0, y0, n) == [k \in 1..(n + 1) |-> <<x0 + k - 1, y0 + ((k - 1) % 2)>>]
 \* along a grid line, then diagonally across cells
 PathMixed(x0, y0, x1, n) == SidePts(<<x0, y0>>, <<x1, y0>>, 1) \o PathDiag(x1, y0, n)
 
-Poly(face, pcs, step) == [dim |-> 2, face |-> face, pcs |-> pcs, step |-> step, verts |-> <<>>]
-Line(face, verts) == [dim |-> 1, face |-> face, pcs |-> <<>>, step |-> 1, verts |-> verts]
-Dots(face, verts) == [dim |-> 0, face |-> face, pcs |-> <<>>, step |-> 1, verts |-> verts]
+Poly(face, pcs, step) == [dim |-> 2, face |-> face, pcs |-> pcs, step |-> step, verts |-> <<>>, inv |-> FALSE]
+Line(face, verts) == [dim |-> 1, face |-> face, pcs |-> <<>>, step |-> 1, verts |-> verts, inv |-> FALSE]
+Dots(face, verts) == [dim |-> 0, face |-> face, pcs |-> <<>>, step |-> 1, verts |-> verts, inv |-> FALSE]
+\* the complement of a region: the same boundary traversed backwards; it contains the rest of its
+\* face and all of the other five faces
+Compl(sh) == [sh EXCEPT !.inv = TRUE]
 
 x0w == SetMin(XS)
 x1w == SetMax(XS)
@@ -96,6 +99,9 @@ ScenesOf(fam, face, step) ==
       [] fam = "four" -> {<<BasePoly(face, step), Poly(face, <<r>>, 1), l, DotSet(face)>> :
                               r \in AllRects, l \in Lines(face, step)}
       [] fam = "thin" -> {<<l, DotSet(face)>> : l \in Lines(face, step)} \cup {<<DotSet(face)>>}
+      [] fam = "compl" -> {<<Compl(Poly(face, <<r>>, step))>> : r \in AllRects}
+                          \cup {<<Compl(BasePoly(face, step)), l>> : l \in Lines(face, step)}
+                          \cup {<<Compl(BasePoly(face, step)), Poly(OtherFace(face), <<r>>, step)>> : r \in AllRects}
       [] fam = "faces" -> {<<BasePoly(face, step), Poly(OtherFace(face), <<r>>, step), l>> :
                               r \in AllRects, l \in Lines(OtherFace(face), step)}
 
@@ -110,6 +116,11 @@ TilingsOf(fam) ==
             {<< <<WholeFace, Hull>>, <<Hull, h>>, <<h>> >> :
                 h \in {h \in HoleRects : StrictlyInside(h, Hull) /\ StrictlyInside(Hull, WholeFace)}}
       [] fam = "wholeface" -> {<< <<WholeFace>> >>}
+      \* all cells of level G, each as its own loop
+      [] fam = "cells" -> {[k \in 1..(S * S) |-> LET i == (k - 1) % S  j == (k - 1) \div S IN <<Rect(i, j, i + 1, j + 1)>>]}
+      \* horizontal strips of cells between the window's y coordinates
+      [] fam = "strips" -> {LET ys == SetToSortSeq(YS \cup {0, S}, <)
+                            IN  [k \in 1..(Len(ys) - 1) |-> <<Rect(0, ys[k], S, ys[k + 1])>>]}
 
 \* three levels: <<face>> -> <<face, family, step, kv>> -> the case; the cases of one second-level
 \* state are generated and checked by one worker
@@ -132,21 +143,28 @@ Step == t[4]
 KV == t[5]
 
 \* ---- tables of one shape -------------------------------------------------------------------
-ShapeLoops(sh) == IF sh.dim = 2 THEN RLoops(sh.pcs, sh.step) ELSE <<sh.verts>>
+ShapeLoops(sh) ==
+    IF sh.dim # 2 THEN <<sh.verts>>
+    ELSE LET ls == RLoops(sh.pcs, sh.step)
+         IN  IF sh.inv THEN [k \in 1..Len(ls) |-> Explicit(RevSeq(ls[k]))] ELSE ls
 ShapeEdges(sh) ==
-    IF sh.dim = 2 THEN LET ls == RLoops(sh.pcs, sh.step) IN Flatten([k \in 1..Len(ls) |-> LoopEdges(ls[k])])
+    IF sh.dim = 2 THEN LET ls == ShapeLoops(sh) IN Flatten([k \in 1..Len(ls) |-> LoopEdges(ls[k])])
     ELSE IF sh.dim = 1 THEN PathEdges(sh.verts)
     ELSE PointEdges(sh.verts)
 
 ShapeRec(sh) ==
     LET edges == ShapeEdges(sh)
-    IN  [dim |-> sh.dim, face |-> sh.face, step |-> sh.step, pcs |-> sh.pcs,
+        \* complement: in <-> out (cell and vertex classes: 0 <-> 1, touching classes 2 <-> 4)
+        Flip(m, perm) == [a \in 1..Len(m) |-> [b \in 1..Len(m[a]) |-> perm[m[a][b] + 1]]]
+    IN  [dim |-> sh.dim, face |-> sh.face, step |-> sh.step, pcs |-> sh.pcs, inv |-> sh.inv,
          depths |-> [k \in 1..Len(sh.pcs) |-> Depth(sh.pcs, k)],
          loops |-> ShapeLoops(sh),
          nedges |-> Len(edges),
-         inM |-> IF sh.dim = 2 THEN InM(sh.pcs) ELSE <<>>,
-         vclass |-> IF sh.dim = 2 THEN VClassM(sh.pcs) ELSE <<>>,
-         cclass |-> IF sh.dim = 2 /\ WithCells THEN [d \in 1..3 |-> CellClassM(sh.pcs, d - 2)] ELSE <<>>,
+         inM |-> IF sh.dim # 2 THEN <<>> ELSE IF sh.inv THEN Flip(InM(sh.pcs), <<1, 0>>) ELSE InM(sh.pcs),
+         vclass |-> IF sh.dim # 2 THEN <<>> ELSE IF sh.inv THEN Flip(VClassM(sh.pcs), <<1, 0, 2>>) ELSE VClassM(sh.pcs),
+         cclass |-> IF sh.dim = 2 /\ WithCells
+                    THEN [d \in 1..3 |-> IF sh.inv THEN Flip(CellClassM(sh.pcs, d - 2), <<1, 0, 4, 3, 2>>) ELSE CellClassM(sh.pcs, d - 2)]
+                    ELSE <<>>,
          met |-> IF WithCells THEN [k \in 1..Len(edges) |-> Met(edges[k])] ELSE <<>>]
 
 \* ---- query segments --------------------------------------------------------------------------
